@@ -1,5 +1,46 @@
-(** C06 Huffman container (theorems are added to this file as they are proved). *)
-From FC Require Import Base.Res Region.Region Huffman.Huffman.
+(** C06 Huffman container.
+    Proved here: the code lengths are those of an optimal prefix code for the merged statistics
+    (for every count profile), a lone symbol gets one bit, raw mode round-trips.
+    NOT proved (partial): the bit-level round trip of the u64 encoder register, the trailing-byte
+    peel, the bit iterator and the u16 table-walking decoder at every alignment; that part of the
+    property is decided by the correspondence (the executable model below agrees with the crate on
+    bit ranges and decoded symbols exactly) and by the implementation-side oracle. *)
+From FC Require Import Base.Res Region.Region Huffman.Huffman Huffman.HuffOpt Huffman.HuffTree.
+From Coq Require Import ZArith Permutation Sorted.
+
+(** The greedy (Huffman) cost on the sorted weights is a lower bound for EVERY pairing of the
+    weights with EVERY multiset of leaf depths realisable by a binary tree. *)
+Theorem C06_greedy_is_lower_bound : forall n ps ws,
+  length ps = n -> real (map snd ps) -> Permutation ws (map fst ps) -> StronglySorted le ws ->
+  hcost n ws <= cost ps.
+Proof. exact huffman_optimal. Qed.
+
+(** The lengths computed by the model of Huffman::create_from (BinaryHeap pops by the derived Ord,
+    tree vector, stack DFS, stable level sort), for ANY statistics with at least two symbols:
+    (1) they are the leaf depths of a binary tree, so a prefix code with these lengths exists
+        (the Kraft sum is exactly 1) and every length is >= 1;
+    (2) their total cost sum(count * length) is minimal among all such assignments. *)
+Theorem C06_lengths_optimal : forall counts : list (sym * Z),
+  2 <= length counts -> NoDup (map fst counts) -> Forall (fun sc : sym * Z => (0 <= snd sc)%Z) counts ->
+  real (map fst (levels_of counts)) /\
+  forall ps, length ps = length counts -> real (map snd ps) ->
+    Permutation (map fst ps) (map (fun sc : sym * Z => Z.to_nat (snd sc)) counts) ->
+    lv_cost counts (levels_of counts) <= cost ps.
+Proof. exact model_lengths_optimal. Qed.
+
+(** a single-symbol alphabet gets a one-bit code (at least one bit per symbol) *)
+Theorem C06_single_symbol : forall s c, levels_of [(s, c)] = [(1, s)].
+Proof. exact single_symbol_one_bit. Qed.
+
+(** the tree the heap loop builds: its cost is the forest's cost plus the greedy merge cost *)
+Theorem C06_build_spec : forall fuel heap tv ts,
+  Forall2 (ent_ok tv) heap ts -> heap <> [] -> length heap <= fuel ->
+  let tv' := build fuel heap tv in
+  exists t root, nth_error tv' (length tv' - 1) = Some root /\ Rep tv' root t /\
+    tcost t 0 = sum_tcost ts + fcost ts /\
+    Permutation (lsw t) (concat (map lsw ts)) /\
+    length tv' = length tv + 2 * length heap - 1.
+Proof. exact build_spec. Qed.
 
 (** raw mode (before any merge and after clear) stores the symbols themselves *)
 Theorem C06_raw_roundtrip : forall raw stats v,
